@@ -143,7 +143,7 @@ enum Replacement {
 /// glue of the `Option<Expression>` temporaries, which are all `None` when dropped); values,
 /// the right operand and the operands' real behaviour stay symbolic.
 ///
-/// `left_kind`: what `evaluate(L)` answers (0 nil, 1 false, 2 true, 3 number, 5 table, 7 Unknown);
+/// `left_kind`: what `evaluate(L)` answers (0 nil, 2 true, 5 table - possibly `{ f() }` -, 7 Unknown);
 /// `node_kind`: what `evaluate(L op R)` answers (0 nil, 1 false, 2 true, 3 number, 7 Unknown).
 #[inline(never)]
 fn scenario<S: Source>(
@@ -364,3 +364,24 @@ pub fn compute_and_or_g8<S: Source>(s: &mut S) {
     let _count: u16 = include!("c01_scenarios_g8.in");
 }
 compute_proof!(c01_compute_and_or_g8, compute_and_or_g8);
+
+/// H-C01-compute-step, scenario group 9 (see `c01_scenarios_g9.in`).
+pub fn compute_and_or_g9<S: Source>(s: &mut S) {
+    let index = s.any_u16();
+    let _count: u16 = include!("c01_scenarios_g9.in");
+}
+compute_proof!(c01_compute_and_or_g9, compute_and_or_g9);
+
+/// H-C01-compute-step, scenario group 10 (see `c01_scenarios_g10.in`).
+pub fn compute_and_or_g10<S: Source>(s: &mut S) {
+    let index = s.any_u16();
+    let _count: u16 = include!("c01_scenarios_g10.in");
+}
+compute_proof!(c01_compute_and_or_g10, compute_and_or_g10);
+
+/// H-C01-compute-step, scenario group 11 (see `c01_scenarios_g11.in`).
+pub fn compute_and_or_g11<S: Source>(s: &mut S) {
+    let index = s.any_u16();
+    let _count: u16 = include!("c01_scenarios_g11.in");
+}
+compute_proof!(c01_compute_and_or_g11, compute_and_or_g11);
